@@ -277,6 +277,10 @@ func (g *SGen) SDoc() *ast.SchemaDocument {
 			g.w("directive")
 			g.p("@")
 			d.Name = g.name()
+			if r.Chance(1, 4) {
+				// a document may declare the specified directives itself (spec 3.13)
+				d.Name = Pick(r, []string{"include", "skip", "deprecated", "specifiedBy", "defer", "oneOf"})
+			}
 			g.w(d.Name)
 			d.Arguments = g.argDefs()
 			if r.Chance(1, 3) {
